@@ -18,7 +18,7 @@ func init() {
 			"R2 no ambient input: the import set of the core packages is within the pure whitelist, there is no go statement, channel operation, select, or range over a map outside init; " +
 			"R3 no aliasing out of a parse: no ast node type can reach *Lexer/*Parser/*token.File through its fields, tokens stored in the AST are Clone() results, File.lines is written only by File.init on its own receiver. " +
 			"Together: every write of a call goes to memory allocated in that call or owned by its Parser, every read of shared memory reads data immutable after initialisation. Assumes the standard-library functions used are pure.",
-		Rules: []ruleFn{ruleC18R1, ruleC18R2, ruleC18R3, ruleC18R4, ruleC18R5, ruleC13R5, ruleC18R6, ruleC18R7},
+		Rules: []ruleFn{ruleC18R1, ruleC18R2, ruleC18R3, ruleC18R4, ruleC18R5, ruleC13R5, ruleC18R6, ruleC18R7, ruleC18R8},
 	})
 }
 
@@ -862,6 +862,99 @@ func ruleC18R6(w *World, r *Report) {
 	if n < 30 {
 		r.errorf("only %d printf-style calls found", n)
 	}
+}
+
+// ruleC18R8: an interior pointer into the parser's or the lexer's own state never becomes data. The type graph (R3) cannot
+// see that a *token.Token stored in the tree points at Lexer.Token: the tree would change under the caller with the next
+// token read, and two parses sharing a Lexer value would share it.
+func ruleC18R8(w *World, r *Report) {
+	const rule = "C18/R8"
+	r.rule(rule, "in package memefish the address of a field of a *Lexer or *Parser (&p.Token, &l.Token.Comments, …) is only loaded from, stored through, selected further or handed to a call as an argument: it is never stored as a value (into a node field, a slice element, a variadic argument of append), never converted to an interface and never returned", 100)
+	n := 0
+	done := map[string]bool{}
+	pending := map[string]string{}
+	defer func() {
+		var keys []string
+		for k := range pending {
+			if !done[k] {
+				keys = append(keys, k)
+			}
+		}
+		sort.Strings(keys)
+		for _, k := range keys {
+			r.ok(rule, k, pending[k], "only read, written through, selected further or passed as an argument")
+		}
+		if len(keys)+len(done) == 0 {
+			r.errorf("no address of a Lexer/Parser field taken in package memefish")
+		}
+	}()
+	for _, fn := range w.ModFns {
+		if fnPkgPath(fn) != modRoot || fn.Blocks == nil {
+			continue
+		}
+		cnt := 0
+		for _, b := range fn.Blocks {
+			for _, in := range b.Instrs {
+				fa, ok := in.(*ssa.FieldAddr)
+				if !ok || !(w.isLexerPtr(fa.X.Type()) || w.isParserPtr(fa.X.Type())) {
+					continue
+				}
+				if _, fresh := fa.X.(*ssa.Alloc); fresh {
+					continue // a Lexer/Parser literal being filled in
+				}
+				cnt++
+				construct := fmt.Sprintf("&%s.%s in %s", namedOf(fa.X.Type()).Obj().Name(), fieldAddrName(fa), funcName(fn))
+				if done[construct] {
+					continue // one obligation per field and function; a violation of an earlier site has been reported
+				}
+				n++
+				bad := ""
+				seen := map[ssa.Value]bool{}
+				var follow func(v ssa.Value, depth int)
+				follow = func(v ssa.Value, depth int) {
+					if seen[v] || depth > 6 || bad != "" {
+						return
+					}
+					seen[v] = true
+					for _, u := range referrers(v) {
+						switch x := u.(type) {
+						case *ssa.Store:
+							if x.Val == v {
+								bad = "stored as a value at " + w.pos(x.Pos())
+							}
+						case *ssa.MakeInterface:
+							bad = "converted to an interface at " + w.pos(x.Pos())
+						case *ssa.Return:
+							bad = "returned at " + w.pos(x.Pos())
+						case *ssa.FieldAddr:
+							if x.X == v {
+								follow(x, depth+1)
+							}
+						case *ssa.IndexAddr:
+							if x.X == v {
+								follow(x, depth+1)
+							}
+						case *ssa.Phi:
+							follow(x, depth+1)
+						case *ssa.ChangeType:
+							follow(x, depth+1)
+						case *ssa.MakeClosure:
+							bad = "captured by a closure at " + w.pos(x.Pos())
+						}
+					}
+				}
+				follow(fa, 0)
+				if bad != "" {
+					done[construct] = true
+					r.bad(rule, construct, w.pos(fa.Pos()), "the address of the parser's / lexer's own state is "+bad+": what holds it changes with the next token read (a Token.Clone() is the copy to keep)")
+				} else {
+					pending[construct] = w.pos(fa.Pos())
+					n--
+				}
+			}
+		}
+	}
+	_ = n
 }
 
 // ruleC18R7: unparsing and position queries only read the tree. A SQL() that caches its text in the node, a Pos()
